@@ -297,6 +297,19 @@ class Driver:
                     continue
                 if self.told.get(path) != self.world.files.get(path):
                     raise Invalid(f"disk change of {path} was never announced to the server")
+            # which of two files defining the same module/program a server indexes depends on the
+            # order it meets them in: such workspaces have no history-independent answer (C15
+            # states the precondition, C10's comparison with a fresh server needs it as well)
+            import re as _re
+
+            seen = {}
+            for path, data in sorted(self.world.files.items()):
+                text = data.decode("utf-8", "replace")
+                for m in _re.finditer(r"(?im)^[ \t]*(?:module(?![ \t]+(?:procedure|subroutine|function)\b)|program|"
+                                      r"submodule[ \t]*\([^)]*\))[ \t]+([a-z_]\w*)", text):
+                    name = m.group(1).lower()
+                    if seen.setdefault(name, path) != path:
+                        raise Invalid(f"top-level unit {name} is defined by {seen[name]} and {path}")
         elif what == "recursion":
             self.obs.append({"what": "recursion", "limit": sys.getrecursionlimit()})
         elif what == "uri_roundtrip":
